@@ -54,6 +54,8 @@ class RunMonitor:
         self.loc_faults = {}  # (relfile, qualname, line) -> [occ_wanted, seen, fault]
         self.stage_faults = {}  # (qualname, when) -> [occ_wanted, fault]
         self.foreign_fault = None  # fires at the first repo call made while the output is open
+        self.stage_spans = []  # [name, PY_START index at entry, PY_START index at return]
+        self._stage_open = {}
         for f in faults or []:
             self.add_fault(f)
         self._active = False
@@ -206,6 +208,7 @@ class RunMonitor:
                 self.stage_counts[name] = c
                 if c == 1:
                     self.stage_order.append(name)
+                self._stage_open[name] = self.n_start
                 ent = self.stage_faults.get((name, "entry"))
                 if ent is not None and ent[0] == c:
                     del self.stage_faults[(name, "entry")]
@@ -216,11 +219,14 @@ class RunMonitor:
         fn = code.co_filename
         if not fn.startswith(self.pkg):
             return MON.DISABLE
-        if self.stage_faults and self.driver_codes:
+        if self.driver_codes:
             fr = sys._getframe(1)
             back = fr.f_back
             if back is not None and back.f_code in self.driver_codes and code not in self.driver_codes:
                 name = fn[len(self.pkg):] + ":" + code.co_qualname
+                st = self._stage_open.pop(name, None)
+                if st is not None:
+                    self.stage_spans.append([name, st, self.n_start])
                 ent = self.stage_faults.get((name, "return"))
                 if ent is not None and ent[0] == self.stage_counts.get(name, 0):
                     del self.stage_faults[(name, "return")]
@@ -235,4 +241,5 @@ class RunMonitor:
         return {"n_line": self.n_line, "n_start": self.n_start,
                 "stages": [[n, self.stage_counts[n]] for n in self.stage_order],
                 "lines": lines, "foreign_in_window": dict(self.foreign_in_window),
+                "stage_spans": self.stage_spans,
                 "window_line_range": self.window_line_range}
